@@ -3,6 +3,7 @@ from ..gen import cells as G
 from ..gen import scripts as S
 from ..gen import msgs as M
 from ..gen import wrappers as W
+from ..translate import arith2
 
 SPEC = dict(
     manifest=dict(
@@ -21,13 +22,18 @@ SPEC = dict(
              'present (c15_highload_round_trip) and own parser = spec decoder (c15_wallet_message_own_parser). '
              'Model = library is checked differentially on a boundary sweep of the joint bit/ref budget and on boundary values of '
              'every wrapper field; the property itself is evaluated on the library against a second, Python transcription of the '
-             'schemas (library serialize -> spec decoder; spec encoding -> library parser).',
+             'schemas (library serialize -> spec decoder; spec encoding -> library parser). The two layout decisions of MessageAny.serialize '
+             '(init inline vs reference: the statements computing bits_left / refs_left / body_fits and the test `bits_left >= 0 and body_fits` of '
+             'fix F17; body inline vs reference) are additionally re-translated from tlb/transaction.py on every run (Generated/MsgLayout.lean) and '
+             'proved, for ALL integer budgets and sizes, to be the model\'s conditions (c15_src_layout_tests); initB / bodyB of the hand model are '
+             'proved to branch by exactly these regenerated decisions (c15_src_model_layout).',
         level_note='theorems are about the hand model; model = pytoniq-core only on the generated inputs (sampled). Dictionaries '
                    '(extra currencies, library, plugins, old_queries) are optional root references (dictionary contents are C09/C10). '
                    'bits256 fields must be 32 bytes: the library does not check the length (a shorter key serialises to a cell that is '
                    'not a valid value; shown as an example, outside the property). The dictionary a HighloadWalletData cell holds is compared '
                    'semantically (HashMap.parse for the structure, the spec decoder per value), its root cell being opaque to the theorems.',
-        technique='Lean 4 proof (hand model) + differential correspondence with the library'),
+        technique='Lean 4 proof (hand model) + differential correspondence with the library + source-regenerated layout decisions'),
+    translators=[('transaction.py MessageAny.serialize inline/reference decisions->Generated/MsgLayout.lean', arith2.regenerator('MsgLayout'))],
     design_ref='DESIGN.md §6 C15',
     rule='boundary sweep: header kind (internal / ext-in / ext-out) x extra-currency dict (0/1/many entries) x state-init shape '
          '(absent, 0..3 refs, split_depth, tick-tock) x body bits {0, 1, each exact inline limit -1/0/+1, 1023} x body refs 0..4, plus '
@@ -45,7 +51,9 @@ SPEC = dict(
                   '(HashUpdate), tlb/custom/*.py by hand',
                   'harness/gen/msgs.py, harness/gen/wrappers.py: second transcription of the schemas (oracle), canonical strings, library '
                   'object construction',
-                  'dictionaries are serialised/parsed by the library HashMap (C09/C10) and treated as opaque root cells'],
+                  'dictionaries are serialised/parsed by the library HashMap (C09/C10) and treated as opaque root cells',
+                  'harness/translate/pyarith.py + arith.py/arith2.py (Python statements -> Lean) for the c15_src_* theorems; builder.available_bits / '
+                  'available_refs are read as integer inputs (their definitions 1023 - used_bits, 4 - len(refs) are instantiated in c15_src_model_layout)'],
     assumptions=['correspondence is sampled differential testing', 'referenced cells (code/data/library/body/dict root/content) are ordinary cells',
                  'cells of depth > 1023 (Cell constructor raises) are outside "lack of room"'],
 )
@@ -519,14 +527,26 @@ def header_limit(ctx, pool):
                 check_msg(ctx, dict(info=info, init=si, body=M.body_cell(rng, nb, nr, pool)), f'header{target}')
 
 
+def src_search(ctx):
+    """Search mode only: logs the (budget, size) points where a regenerated layout decision (Generated/MsgLayout.lean) differs from the
+    model's; the boundary sweep that follows in `run` places bodies at every exact inline limit -1/0/+1 with 0..4 references behind
+    every init shape, which is where such a difference shows as a message that does not serialise / decode."""
+    arith2.search_points(ctx, ['MsgLayout'])
+    return False
+
+
 def run(ctx):
     rng = ctx.rng
     pool = M.leaf_pool(rng)
+    if ctx.search:
+        src_search(ctx)
     # the F17 input first
     f17 = dict(info=('I', True, False, False, ['s', 0, '11' * 32], ['s', 0, '11' * 32], 5, {1: 5}, 0, 0, 0, 0),
                init=dict(sd=None, tt=None, code=pool[1], data=pool[1], lib=pool[1]), body=M.mk_cell('', [pool[1]]))
     check_msg(ctx, f17, 'F17')
     sweep(ctx, pool)
+    if ctx.search and ctx.failures:
+        return                       # search mode only needs one concrete failing input
     header_limit(ctx, pool)
     random_msgs(ctx, pool, ctx.n(700, 10000))
     for t in range(ctx.n(40, 400)):
